@@ -112,9 +112,6 @@ def argToks (args : List MacroArg) (a : String) : List Tok :=
   | some x => x.toks
   | none => []
 
-/-- the variable argument "has tokens" -/
-def vaPresent (args : List MacroArg) : Bool := args.any (fun a => a.isVa && !a.toks.isEmpty)
-
 def rawOrPlacemarker (ts : List Tok) : List Elem := if ts.isEmpty then [.pm] else ts.map .tok
 
 /-- the spacing of a substituted parameter is that of the parameter in the replacement list -/
@@ -153,8 +150,9 @@ def plainParams : Bool → List Item → List String
   | _, _ :: rest => plainParams false rest
 
 /-- substitution of one parsed replacement list (phase 6.10.3.1 + operands of 6.10.3.2/3): `full a` is the
-    completely macro-replaced argument `a`; `inner` handles the content of `__VA_OPT__` -/
-def substItems (args : List MacroArg) (full : String → List Tok) (inner : List Tok → Except Err (List Tok)) :
+    completely macro-replaced argument `a`; `inner` handles the content of `__VA_OPT__`; `vaP`: the variable argument
+    "has tokens" — judged after its macro replacement (C2x 6.10.4.1: with `#define EMP`, `F(EMP)` has none) -/
+def substItems (args : List MacroArg) (vaP : Bool) (full : String → List Tok) (inner : List Tok → Except Err (List Tok)) :
     Bool → List Item → Except Err (List Elem)
   | _, [] => .ok []
   | prevOp, it :: rest =>
@@ -168,10 +166,10 @@ def substItems (args : List MacroArg) (full : String → List Tok) (inner : List
         if prevOp || nextOp then .ok (rawOrPlacemarker (if nextOp then withSpacingOf p (argToks args a) else argToks args a))
         else .ok ((withSpacingOf p (full a)).map .tok)
       | .gnuComma c a => .ok (if (argToks args a).isEmpty then [] else .tok c :: (argToks args a).map .tok)
-      | .vaopt c => if vaPresent args then (inner c).map (·.map .tok) else .ok []
+      | .vaopt c => if vaP then (inner c).map (·.map .tok) else .ok []
     match here with
     | .error e => .error e
-    | .ok es => (substItems args full inner (isOp it) rest).map (es ++ ·)
+    | .ok es => (substItems args vaP full inner (isOp it) rest).map (es ++ ·)
 
 /-- a `##` shall not occur at the beginning or at the end of a replacement list (6.10.3.3p1) -/
 def checkEnds (items : List Item) : Except Err Unit :=
@@ -181,7 +179,7 @@ def checkEnds (items : List Item) : Except Err Unit :=
 
 /-- 6.10.3.1–6.10.3.3 for one replacement list, given the completely macro-replaced arguments.
     Fuel only bounds the nesting of `__VA_OPT__`. -/
-def substPhases (lx : String → LexOne) (isFn : Bool) (args : List MacroArg) (full : String → List Tok) :
+def substPhases (lx : String → LexOne) (isFn : Bool) (args : List MacroArg) (vaP : Bool) (full : String → List Tok) :
     Nat → List Tok → Except Err (List Tok)
   | 0, _ => .error .fuel
   | n + 1, body =>
@@ -191,11 +189,11 @@ def substPhases (lx : String → LexOne) (isFn : Bool) (args : List MacroArg) (f
       match checkEnds items with
       | .error e => .error e
       | .ok _ =>
-        match substItems args full (substPhases lx isFn args full n) false items with
+        match substItems args vaP full (substPhases lx isFn args vaP full n) false items with
         | .error e => .error e
         | .ok es => (pasteAll lx es []).map dropPlacemarkers
 
-/-- the plain parameters of a replacement list including those inside `__VA_OPT__` contents (when present) -/
+/-- the plain parameters of a replacement list including those inside `__VA_OPT__` contents -/
 def plainParamsDeep (isFn : Bool) (args : List MacroArg) : Nat → List Tok → List String
   | 0, _ => []
   | n + 1, body =>
@@ -204,13 +202,14 @@ def plainParamsDeep (isFn : Bool) (args : List MacroArg) : Nat → List Tok → 
     | .ok items =>
       plainParams false items ++
         (items.flatMap fun it => match it with
-          | .vaopt c => if vaPresent args then plainParamsDeep isFn args n c else []
+          | .vaopt c => plainParamsDeep isFn args n c
           | _ => [])
 
 /-- **`Spec.subst`**: the replacement of one invocation before rescanning, for a pure argument expander -/
 def subst (lx : String → LexOne) (full : List Tok → List Tok) (isFn : Bool) (body : List Tok) (args : List MacroArg) :
     Except Err (List Tok) :=
-  substPhases lx isFn args (fun a => full (argToks args a)) (body.length + 1) body
+  substPhases lx isFn args (args.any fun a => a.isVa && !(full a.toks).isEmpty) (fun a => full (argToks args a))
+    (body.length + 1) body
 
 /-! ## 6.10.3.4  rescanning -/
 
@@ -340,7 +339,10 @@ def rescan (lx : String → LexOne) : Nat → SSt → List String → List RItem
               let active' := removeAll active passed
               let st := { st with crossed := st.crossed || !passed.isEmpty }
               -- complete macro replacement of the arguments that need it, each once, in order of first use
-              let needed := (plainParamsDeep true args (body.length + 1) body).eraseDups
+              let vaName := (args.find? (·.isVa)).map (·.name)
+              let usesVaOpt := body.any (fun t => t.text == "__VA_OPT__")
+              let needed := (plainParamsDeep true args (body.length + 1) body ++
+                (if usesVaOpt then vaName.toList else [])).eraseDups
               let step (acc : Except Err (List (String × List Tok) × SSt)) (a : String) :=
                 match acc with
                 | .error e => .error e
@@ -351,7 +353,10 @@ def rescan (lx : String → LexOne) : Nat → SSt → List String → List RItem
               match needed.foldl step (.ok ([], st)) with
               | .error e => .error e
               | .ok (tbl, st') =>
-                match substPhases lx true args (fun a => (tbl.lookup a).getD []) (body.length + 1) body with
+                let vaP := match vaName with
+                  | some v => !((tbl.lookup v).getD []).isEmpty
+                  | none => false
+                match substPhases lx true args vaP (fun a => (tbl.lookup a).getD []) (body.length + 1) body with
                 | .error e => .error e
                 | .ok body' =>
                   rescan lx n st' (t.text :: active')
